@@ -706,6 +706,24 @@ Proof. cbv zeta. unfold bk_vertex. cbn [nleb nmul nadd nsub ndiv nopp n0 n1 ROps
   - apply Rleb_false in F. destruct (Rle_dec fN 0); [lra|].
     destruct (cc_friction ROps sig mH mB vtrans fN (vtan_of vel n)) as [fF pF]. cbn [fst]. repeat split; lra. Qed.
 
+(** ** brick / half space: the loop over the face vertices gives every penetrating vertex its own law *)
+Definition bk_contrib sig (mH mB:ccmat (T:=R)) vtrans (n pHB w v vH:Vec3 R) : SpatialVec R * R * R :=
+  match bk_vertex ROps sig mH mB vtrans n pHB w v vH with
+  | None => (sv_zero ROps, 0, 0)
+  | Some (pt, f, pe, pw, _, _) => ((v3_cross ROps pt f, f), pe, pw)
+  end.
+Theorem bk_each_vertex_gets_its_law sig mH mB vtrans n pHB w v vs F pe pw :
+  bk_loop ROps sig mH mB vtrans n pHB w v vs (F, pe, pw) =
+    (sv_add ROps F (sv_sum (map (fun vH => fst (fst (bk_contrib sig mH mB vtrans n pHB w v vH))) vs)),
+     pe + sumR (map (fun vH => snd (fst (bk_contrib sig mH mB vtrans n pHB w v vH))) vs),
+     pw + sumR (map (fun vH => snd (bk_contrib sig mH mB vtrans n pHB w v vH)) vs)).
+Proof. revert F pe pw. induction vs as [|vH rest IH]; intros F pe pw; cbn [bk_loop map sv_sum sumR].
+  - rewrite sv_add_0_r, !Rplus_0_r. reflexivity.
+  - unfold bk_contrib at 1 3 5. destruct (bk_vertex ROps sig mH mB vtrans n pHB w v vH) as [[[[[[pt f] e] p] x] xd]|].
+    + rewrite IH. cbn [fst snd nadd ROps]. rewrite sv_add_assoc. f_equal; [f_equal|]; ring.
+    + rewrite IH. cbn [fst snd]. f_equal; [f_equal|]; try ring.
+      destruct F as [[[? ?] ?] [[? ?] ?]]. destruct (sv_sum _) as [[[? ?] ?] [[? ?] ?]]. cbv [sv_zero]. vunf. teq; ring. Qed.
+
 (** ** non-vacuity: the hypotheses are satisfiable and the active branches are reached on concrete inputs *)
 Definition ex_p : hcpar (T:=R) := mkHc 2 (1/2) (4/5) (1/2) (1/10).
 Example ex_hc_fric_ok : hc_fric_ok ex_p.
